@@ -36,13 +36,21 @@
       distinct names); for colliding names the dict provably loses an entry (`src_model_contrib_collision`: the known
       finding K4 as a theorem about the source).
 
+    * `srcFullDict`: the dict the regenerated `SimpleForwardModel.model_full_contrib()` returns.  The generator
+      `contrib.prepare_each(…)` is SUSPENDED while `path_integral` re-runs; the protocol is explicit: `prepareEach c` is the
+      list of (yielded name, state of the contribution at that yield), and iteration `i` runs the regenerated `path_integral`
+      on that state.  `statesOf κ names published`: the states of a contribution of kind `κ` whose generator has published
+      the arrays `published` in `self.sigma_xsec` — for the three generators the regenerated `*_prepare_each_published`
+      (`Props/C03Src.lean`: provably the yielded components).  `component_product` is restated with the factors READ FROM
+      THAT DICT (`src_full_contrib_component_product`: their product is what `model_contrib()` stores for the contribution);
+      `src_model_full_contrib_entries`, `src_model_full_contrib_collision` (K4).
+    * `srcRayComp`, `rayleighKept`: the arrays the regenerated `RayleighContribution.prepare_each` yields and the molecules it
+      yields them for.  The `compScaled` conjunct of `sigma_prop` is restated for a POSITIVE factor
+      (`src_sigma_prop_rayleigh`): the generator skips molecules by a test on the mixing ratio (`np.max(mix) == 0.0`), which
+      a positive factor provably leaves alone (`zeroAbundance_scale`), so the yielded lists of a profile and of its multiple
+      are index-aligned; for a factor ≤ 0 they need not be (a zero factor removes the component).
+
   Not restated (no tie)
-    * `SimpleForwardModel.model_full_contrib` (a generator-driven variant of the same loop: `for name, __ in
-      contrib.prepare_each(…)` re-running `path_integral` while the generator is suspended) is not translated; its iterations
-      are `srcTrans … [⟨κ, component⟩]` (`src_component_product_kinds`).
-    * the `compScaled` (Rayleigh) conjunct of `sigma_prop`: the regenerated `RayleighContribution.prepare_each` skips
-      molecules by a test on the mixing ratio itself, so the yielded lists of a profile and of its multiple are not
-      index-aligned.
     * `nv_nonneg`: hypothesis builder for the examples.
 -/
 import Props.C03
@@ -465,5 +473,208 @@ theorem src_model_contrib_collision (name : Contrib ℝ → String) (prepare : C
   simpa using dictFill_length_lt (fun c => name (prepare c)) _ cs [] (by simpa using hdup) (by simp)
 
 end contrib
+
+/-! ### `model_full_contrib`: the per-component loop driven by the suspended generator -/
+
+section full
+variable {newMethod : Bool} {rp rs : ℝ} {n nwn total : ℕ} {zb z dz dens grid : ℕ → ℝ}
+  {planetPaths : (ℕ → ℝ) → (ℕ → ℕ → ℝ) → (ℕ → ℕ → ℝ) → List (ℕ → ℝ)}
+
+/-- the dict the regenerated `SimpleForwardModel.model_full_contrib()` returns: `cname` reads `contrib.name`,
+    `prepareEach c` lists the (yielded name, state of `c` at that yield) pairs of the generator `c.prepare_each(…)` -/
+noncomputable def srcFullDict (newMethod : Bool) (rp rs : ℝ) (n nwn total : ℕ) (zb z dz dens grid : ℕ → ℝ)
+    (planetPaths : (ℕ → ℝ) → (ℕ → ℕ → ℝ) → (ℕ → ℕ → ℝ) → List (ℕ → ℝ)) (cname : Contrib ℝ → String)
+    (prepareEach : Contrib ℝ → List (String × Contrib ℝ)) (cs : List (Contrib ℝ)) :
+    List (String × List (String × ((ℕ → ℝ) × (ℕ → ℕ → ℝ)))) :=
+  (Gen.SrcC03.model_full_contrib cname cs (dispatch nwn total n) dz dens n nwn grid newMethod planetPaths prepareEach
+    rp rs zb z).2
+
+/-- the states a generator leaves its contribution in: the kind (the class) stays, `sigma_xsec` is what the generator has
+    published at that yield — one state per element of `published`, under the yielded names `names` -/
+def statesOf (κ : Kind) (names : List String) (published : List (ℕ → ℕ → ℝ)) : List (String × Contrib ℝ) :=
+  List.zipWith (fun nm s => (nm, ({ kind := κ, sigma := s } : Contrib ℝ))) names published
+
+/-- contributions with pairwise distinct names: the dict has one entry per contribution, in order, holding one record per
+    yield of its generator: the yielded name and what the regenerated `path_integral` returns for the contribution ALONE in
+    the state it is in at that yield -/
+theorem src_model_full_contrib_entries (cname : Contrib ℝ → String)
+    (prepareEach : Contrib ℝ → List (String × Contrib ℝ)) (cs : List (Contrib ℝ)) (hnd : (cs.map cname).Nodup) :
+    srcFullDict newMethod rp rs n nwn total zb z dz dens grid planetPaths cname prepareEach cs
+      = cs.map (fun c => (cname c, (prepareEach c).map (fun g => (g.1,
+          Gen.SrcC03.path_integral nwn [g.2] (dispatch nwn total n) dz dens n newMethod planetPaths rp rs zb z)))) := by
+  unfold srcFullDict
+  rw [src_model_full_contrib]
+  simpa using dictFill_nodup cname _ cs [] (by simpa using hnd)
+
+/-- **`component_product` with `model_full_contrib` itself regenerated** (every kind): a contribution whose generator
+    publishes the arrays `published` (for CIA / Rayleigh / absorption the regenerated `*_prepare_each_published`, provably
+    the yielded components: `src_cia_published`, …) — the product over the records `model_full_contrib()` stores for it of
+    their transmittance at `[l, wn]` is the transmittance the regenerated `path_integral` returns for the contribution
+    with the `sigma_xsec` that the regenerated `Contribution.prepare` sums from the same arrays: what `model_contrib()`
+    stores for it.  No cut-off term: a single contribution is never cut. -/
+theorem src_full_contrib_component_product (ht : 0 < total) (cname : Contrib ℝ → String)
+    (prepareEach : Contrib ℝ → List (String × Contrib ℝ)) (cs : List (Contrib ℝ)) (hnd : (cs.map cname).Nodup)
+    (c : Contrib ℝ) (hc : c ∈ cs) (κ : Kind) (names : List String) (published : List (ℕ → ℕ → ℝ))
+    (hlen : names.length = published.length) (hpe : prepareEach c = statesOf κ names published) (nW nL : ℕ)
+    (l wn : ℕ) (hl : l < n) (hwn : wn < nwn) :
+    ∃ recs, (srcFullDict newMethod rp rs n nwn total zb z dz dens grid planetPaths cname prepareEach cs).lookup (cname c)
+        = some recs ∧ recs.map (·.1) = names ∧
+      (recs.map (fun r => r.2.2 l wn)).prod
+        = srcTrans newMethod rp rs n nwn total zb z dz dens planetPaths
+            [{ kind := κ, sigma := Gen.SrcC03.contribution_prepare nW published nL }] l wn := by
+  rw [src_model_full_contrib_entries cname prepareEach cs hnd]
+  have hlook : ∀ (cs : List (Contrib ℝ)), c ∈ cs → (cs.map cname).Nodup →
+      (cs.map (fun c => (cname c, (prepareEach c).map (fun g => (g.1,
+          Gen.SrcC03.path_integral nwn [g.2] (dispatch nwn total n) dz dens n newMethod planetPaths rp rs zb z))))).lookup
+          (cname c)
+        = some ((prepareEach c).map (fun g => (g.1,
+          Gen.SrcC03.path_integral nwn [g.2] (dispatch nwn total n) dz dens n newMethod planetPaths rp rs zb z))) := by
+    intro cs
+    induction cs with
+    | nil => intro h; cases h
+    | cons d ds ih =>
+      intro hmem hnd
+      simp only [List.map_cons, List.nodup_cons] at hnd
+      by_cases hd : d = c
+      · subst hd; simp
+      · have hne : (cname c == cname d) = false := by
+          have hcds : c ∈ ds := by
+            rcases List.mem_cons.1 hmem with h | h
+            · exact absurd h.symm hd
+            · exact h
+          have : cname c ≠ cname d := fun he => hnd.1 (he ▸ List.mem_map.2 ⟨c, hcds, rfl⟩)
+          simpa using this
+        have hcds : c ∈ ds := by
+          rcases List.mem_cons.1 hmem with h | h
+          · exact absurd h.symm hd
+          · exact h
+        simp only [List.map_cons, List.lookup_cons, hne]
+        exact ih hcds hnd.2
+  refine ⟨_, hlook cs hc hnd, ?_, ?_⟩
+  · rw [hpe, List.map_map]
+    unfold statesOf
+    clear hlook hpe
+    induction names generalizing published with
+    | nil => simp
+    | cons a as ih =>
+      cases published with
+      | nil => simp at hlen
+      | cons p ps =>
+        simp only [List.zipWith_cons_cons, List.map_cons, Function.comp, List.cons.injEq, true_and]
+        exact ih ps (by simpa using hlen)
+  · rw [src_component_product_kinds ht κ nW nL published l wn hl hwn, hpe, List.map_map]
+    unfold statesOf
+    clear hlook hpe
+    congr 1
+    induction names generalizing published with
+    | nil =>
+      cases published with
+      | nil => simp
+      | cons p ps => simp at hlen
+    | cons a as ih =>
+      cases published with
+      | nil => simp at hlen
+      | cons p ps =>
+        simp only [List.zipWith_cons_cons, List.map_cons, Function.comp, List.cons.injEq]
+        exact ⟨rfl, ih ps (by simpa using hlen)⟩
+
+/-- K4 about the regenerated `model_full_contrib`: when two contributions carry the same name the dict has FEWER entries
+    than there are contributions (the later list of records replaced the earlier) -/
+theorem src_model_full_contrib_collision (cname : Contrib ℝ → String)
+    (prepareEach : Contrib ℝ → List (String × Contrib ℝ)) (cs : List (Contrib ℝ)) (hdup : ¬ (cs.map cname).Nodup) :
+    (srcFullDict newMethod rp rs n nwn total zb z dz dens grid planetPaths cname prepareEach cs).length < cs.length := by
+  unfold srcFullDict
+  rw [src_model_full_contrib]
+  simpa using dictFill_length_lt cname _ cs [] (by simpa using hdup) (by simp)
+
+end full
+
+/-! ### the Rayleigh conjunct of `sigma_prop` -/
+
+section rayleigh
+variable {ι : Type}
+
+/-- the largest element of a profile scales with a positive factor -/
+theorem foldl_max_scale (s : ℝ) (hs : 0 < s) (f : ℕ → ℝ) (ks : List ℕ) (a : ℝ) :
+    ks.foldl (fun acc k => if acc < s * f (k + 1) then s * f (k + 1) else acc) (s * a)
+      = s * ks.foldl (fun acc k => if acc < f (k + 1) then f (k + 1) else acc) a := by
+  induction ks generalizing a with
+  | nil => rfl
+  | cons k ks ih =>
+    simp only [List.foldl_cons]
+    by_cases h : a < f (k + 1)
+    · rw [if_pos ((mul_lt_mul_iff_right₀ hs).2 h), if_pos h, ih]
+    · rw [if_neg (fun h' => h ((mul_lt_mul_iff_right₀ hs).1 h')), if_neg h, ih]
+
+/-- the code's test `np.max(mix) == 0.0` does not see a positive factor: the molecules `RayleighContribution.prepare_each`
+    skips are the same for a profile and for its positive multiple -/
+theorem zeroAbundance_scale (nL : ℕ) (mix : ℕ → ℝ) (s : ℝ) (hs : 0 < s) :
+    zeroAbundance nL (fun j => s * mix j) = zeroAbundance nL mix := by
+  unfold zeroAbundance
+  simp only
+  rw [foldl_max_scale s hs mix]
+  generalize (List.range (nL - 1)).foldl (fun acc k => if acc < mix (k + 1) then mix (k + 1) else acc) (mix 0) = m
+  have h1 : s * m ≤ 0 ↔ m ≤ 0 := by
+    constructor
+    · intro h
+      by_contra hm
+      have := mul_pos hs (lt_of_not_ge hm)
+      exact absurd h (not_le.2 this)
+    · intro h
+      exact mul_nonpos_of_nonneg_of_nonpos hs.le h
+  have h2 : 0 ≤ s * m ↔ 0 ≤ m := by
+    constructor
+    · intro h
+      by_contra hm
+      have := mul_neg_of_pos_of_neg hs (lt_of_not_ge hm)
+      exact absurd h (not_le.2 this)
+    · intro h
+      exact mul_nonneg hs.le h
+  simp only [h1, h2]
+
+/-- the molecules for which the regenerated `RayleighContribution.prepare_each` yields a component, in order -/
+noncomputable def rayleighKept (nL : ℕ) (lawDefined : ι → Bool) (mix : ι → ℕ → ℝ) (molecules : List ι) : List ι :=
+  molecules.filter (fun g => !zeroAbundance nL (mix g) && lawDefined g)
+
+/-- the `i`-th array the regenerated `RayleighContribution.prepare_each` yields -/
+noncomputable def srcRayComp (nW nL : ℕ) (law : ι → ℕ → ℝ) (lawDefined : ι → Bool) (mix : ι → ℕ → ℝ)
+    (molecules : List ι) (i : ℕ) : ℕ → ℕ → ℝ :=
+  (Gen.SrcC03.rayleigh_prepare_each nW law lawDefined mix molecules nL).getD i (fun _ _ => 0)
+
+theorem srcRayComp_eq (nW nL : ℕ) (law : ι → ℕ → ℝ) (lawDefined : ι → Bool) (mix : ι → ℕ → ℝ) (molecules : List ι)
+    (i : ℕ) (g : ι) (hg : (rayleighKept nL lawDefined mix molecules)[i]? = some g) :
+    srcRayComp nW nL law lawDefined mix molecules i = compScaled (law g) (mix g) := by
+  unfold srcRayComp
+  rw [src_rayleigh_prepare_each]
+  unfold rayleighKept at hg
+  simp [List.getD_eq_getElem?_getD, List.getElem?_map, hg]
+
+/-- **the `compScaled` (Rayleigh) conjunct of `sigma_prop` about the regenerated `RayleighContribution.prepare_each`**,
+    run on a mixing-ratio table `mix` and on one (`mix'`) in which some molecules are scaled by a POSITIVE factor `s` and
+    the others are unchanged.  The generator skips a molecule by a test on the mixing ratio itself (`np.max(mix) == 0.0`);
+    a positive factor does not change that test (`zeroAbundance_scale`), so both runs yield for the same molecules, in the
+    same order (`rayleighKept` agree), and the array yielded at position `i` for a scaled molecule is `s` times the
+    original one. -/
+theorem src_sigma_prop_rayleigh (nW nL : ℕ) (law : ι → ℕ → ℝ) (lawDefined : ι → Bool) (mix mix' : ι → ℕ → ℝ)
+    (molecules : List ι) (s : ℝ) (hs : 0 < s)
+    (hscale : ∀ h ∈ molecules, mix' h = mix h ∨ mix' h = fun j => s * mix h j) :
+    rayleighKept nL lawDefined mix' molecules = rayleighKept nL lawDefined mix molecules ∧
+    ∀ (i : ℕ) (g : ι), (rayleighKept nL lawDefined mix molecules)[i]? = some g → (mix' g = fun j => s * mix g j) →
+      ∀ l wn, srcRayComp nW nL law lawDefined mix' molecules i l wn
+        = s * srcRayComp nW nL law lawDefined mix molecules i l wn := by
+  have hk : rayleighKept nL lawDefined mix' molecules = rayleighKept nL lawDefined mix molecules := by
+    unfold rayleighKept
+    apply List.filter_congr
+    intro h hh
+    rcases hscale h hh with e | e
+    · rw [e]
+    · rw [e, zeroAbundance_scale nL (mix h) s hs]
+  refine ⟨hk, fun i g hg hgs l wn => ?_⟩
+  rw [srcRayComp_eq nW nL law lawDefined mix' molecules i g (by rw [hk]; exact hg),
+    srcRayComp_eq nW nL law lawDefined mix molecules i g hg, hgs]
+  have h := (sigma_prop (fun _ w => law g w) (mix g) (fun _ => 0) s l wn).2.2.2
+  simpa using h
+
+end rayleigh
 
 end Taurex.C03SrcProps
